@@ -2,6 +2,9 @@ package main
 
 import (
 	"fmt"
+	"runtime"
+	"sync"
+	"time"
 
 	"github.com/fufuok/cache/zzverif/vshim"
 )
@@ -48,6 +51,14 @@ func runSizeQ(a *args, res *result) {
 		}
 		r := newRng(a.seed, uint64(i)*8+4)
 		fp := newFP()
+		if i%16 == 5 {
+			parallelFill(r, res, i)
+			continue
+		}
+		if i%16 == 11 {
+			shrinkDance(r, res, i)
+			continue
+		}
 		if i%3 != 2 {
 			flavors := []string{"Map", "MapOf[int,val]", "MapOf[string,val]", "MapOf[skey,val]"}
 			rd, m := genMapRound(r, a.prop, flavors, hasherModes)
@@ -152,4 +163,174 @@ func runSizeQ(a *args, res *result) {
 			res.violate(violation{Class: "count", Sig: "Count non-zero right after Clear", Msg: fmt.Sprintf("%s: Count()=%d after a quiescent Clear", rd.spec.Flavor, n), Case: ci})
 		}
 	}
+}
+
+type sizeTarget struct {
+	name  string
+	store func(k int, v any)
+	del   func(k int)
+	size  func() int
+	rng   func(f func(k int, v any) bool)
+}
+
+func newSizeTarget(r rng, hint int, nkeys int) *sizeTarget {
+	if r.chance(0.7) {
+		sp := mapSpec{Flavor: pick(r, mapFlavors), Hint: hint, NKeys: nkeys}
+		if sp.Flavor != "Map" && r.chance(0.3) {
+			sp.Hasher = pick(r, []string{"mix", "sameh2"})
+		}
+		m := newMap(sp)
+		return &sizeTarget{specName(sp), m.Store, m.Delete, m.Size, m.Range}
+	}
+	sp := cacheSpec{Flavor: pick(r, cacheFlavors), Ctor: "New", OptMask: 1 | 2 | 8, DefExp: time.Hour, Interval: 0, MinCap: hint, NKeys: nkeys}
+	if hint == noHint {
+		sp.OptMask = 1 | 2
+	}
+	c := newCache(sp)
+	return &sizeTarget{sp.Flavor, func(k int, v any) { c.Set(k, v, time.Hour) }, c.Delete, c.Count, c.Range}
+}
+
+func (t *sizeTarget) ranged() int {
+	n := 0
+	t.rng(func(int, any) bool { n++; return true })
+	return n
+}
+
+// parallelFill: a presized table (no resize will recount) is filled by 16
+// goroutines with distinct keys at full speed; every insert path - empty slot and
+// freshly appended overflow bucket - updates the striped counter concurrently
+// with its neighbours. Then Size must equal the number of keys stored.
+func parallelFill(r rng, res *result, idx int64) {
+	vshim.SetVirtual(true)
+	vshim.SetVNow(epoch)
+	n := pick(r, []int{6000, 12000, 24000})
+	t := newSizeTarget(r, pick(r, []int{n * 2 / 3, n, n + n/2}), n+1)
+	logCase("sizeq round %d parallel-fill %s n=%d", idx, t.name, n)
+	const G = 16
+	old := runtime.GOMAXPROCS(16)
+	vshim.SetPerturb(0, vshim.NKinds)
+	vshim.SetMode(vshim.MCount | vshim.MBudget)
+	vshim.ResetLive()
+	var wg sync.WaitGroup
+	start := make(chan struct{})
+	for g := 0; g < G; g++ {
+		wg.Add(1)
+		go func(g int) {
+			defer wg.Done()
+			<-start
+			for k := g; k < n; k += G {
+				t.store(k, nextVal(k))
+				vshim.Progress()
+			}
+			// and a few deletes of own keys
+			for k := g; k < n; k += G * 7 {
+				t.del(k)
+				vshim.Progress()
+			}
+		}(g)
+	}
+	close(start)
+	wg.Wait()
+	vshim.SetMode(0)
+	runtime.GOMAXPROCS(old)
+	want := 0
+	for g := 0; g < G; g++ {
+		for k := g; k < n; k += G {
+			want++
+		}
+		for k := g; k < n; k += G * 7 {
+			want--
+		}
+	}
+	size, ranged := t.size(), t.ranged()
+	res.Evaluations++
+	res.count("quiescent_points", 1)
+	res.count("family:parallel-fill", 1)
+	res.count("ops", int64(n))
+	fp := newFP()
+	fp.addStr("parallel-fill" + t.name)
+	fp.add(uint64(n), uint64(idx))
+	res.nontrivial(fp.sum())
+	if size != want || ranged != want {
+		res.violate(violation{Class: "count", Sig: "Size differs from the number of entries present after parallel inserts into a presized table",
+			Msg: fmt.Sprintf("%s: Size()=%d, Range visits %d, %d keys are present", t.name, size, ranged, want), Case: map[string]any{"case_index": idx, "n": n}})
+	}
+}
+
+// shrinkDance: a table grown past its minimum is drained to just above its
+// shrink threshold; a few goroutines then insert and delete keys of their own
+// while one repeatedly removes and re-adds a resident key, so that the size
+// oscillates across the threshold and shrink attempts are started, abandoned and
+// completed while other writers are finishing. Size vs Range at the end of each cycle.
+func shrinkDance(r rng, res *result, idx int64) {
+	vshim.SetVirtual(true)
+	vshim.SetVNow(epoch)
+	level := pick(r, []int{0, 0, 1, 2})
+	procs := pick(r, []int{4, 16, 16})
+	cycles := 60
+	bad := 0
+	name := ""
+	for cy := 0; cy < cycles && bad < 3; cy++ {
+		t := newSizeTarget(r, noHint, 2048)
+		name = t.name
+		grow := pick(r, []int{130, 260})
+		for k := 0; k < grow; k++ {
+			t.store(k, nextVal(k))
+		}
+		resident := r.between(2, 5)
+		for k := resident; k < grow; k++ {
+			t.del(k)
+		}
+		logCase("sizeq round %d shrink-dance %s cycle %d resident=%d level=%d procs=%d", idx, t.name, cy, resident, level, procs)
+		old := runtime.GOMAXPROCS(procs)
+		vshim.SetPerturb(level, pick(r, []vshim.Kind{vshim.KAfterCAS, vshim.KAfterUnlock, vshim.KAdd, vshim.NKinds}))
+		mode := vshim.MCount | vshim.MBudget
+		if level > 0 {
+			mode |= vshim.MPerturb
+		}
+		vshim.SetMode(mode)
+		vshim.ResetLive()
+		var wg sync.WaitGroup
+		start := make(chan struct{})
+		for g := 0; g < 4; g++ {
+			wg.Add(1)
+			go func(g int) {
+				defer wg.Done()
+				<-start
+				k := 1000 + g
+				for j := 0; j < 12; j++ {
+					t.store(k, nextVal(k))
+					t.del(k)
+					vshim.Progress()
+				}
+			}(g)
+		}
+		wg.Add(1)
+		go func() {
+			defer wg.Done()
+			<-start
+			for j := 0; j < 6; j++ {
+				t.del(0)
+				t.store(0, nextVal(0))
+				vshim.Progress()
+			}
+		}()
+		close(start)
+		wg.Wait()
+		vshim.SetMode(0)
+		runtime.GOMAXPROCS(old)
+		size, ranged := t.size(), t.ranged()
+		res.count("quiescent_points", 1)
+		if size != ranged || ranged != resident {
+			bad++
+			res.violate(violation{Class: "count", Sig: "Size differs from the number of entries present after writers danced around the shrink threshold",
+				Msg: fmt.Sprintf("%s: Size()=%d, Range visits %d, %d keys are present", t.name, size, ranged, resident), Case: map[string]any{"case_index": idx, "cycle": cy}})
+		}
+	}
+	res.Evaluations++
+	res.count("family:shrink-dance", 1)
+	fp := newFP()
+	fp.addStr("shrink-dance" + name)
+	fp.add(uint64(idx))
+	res.nontrivial(fp.sum())
 }
